@@ -408,10 +408,62 @@ class FindSystem(System):
                    transitions=nq, validated=nq, stats={"queries": nq})
 
 
+PROBES = [t for n in range(1, 3) for t, _ in forests(n, 1)]
+
+
+class HistorySystem(System):
+    """No parse depends on an earlier one: soup string first (unfinished tags, comments, references ...), then well-formed documents."""
+
+    name = "history"
+
+    def __init__(self, tier):
+        super().__init__(tier)
+        self.n = 3 if tier == "quick" else 4
+        self.alpha = "<>/ab!-&;s"
+        self.extra = ["<script>", "<style>", "<textarea>", "<!--", "<![CDATA[", "<b k=\"", "&amp", "<?p", "<title>x", "<a", "</"]
+        self.description = (f"every string of length <= {self.n} over {self.alpha!r} (+ {len(self.extra)} unfinished constructs) is parsed first, "
+                            f"then each of {len(PROBES)} well-formed documents: exact round trip and the generator's tree, as in a fresh process")
+
+    def bounds(self):
+        return {"prefix_len": self.n, "probes": len(PROBES)}
+
+    def alphabet(self):
+        return list(self.alpha) + self.extra
+
+    def rule(self):
+        return "one case = one earlier input followed by all probe documents (transitions = parses); non-trivial = the earlier input is not itself round-tripping"
+
+    def cases(self):
+        yield from self.extra
+        for n in range(1, self.n + 1):
+            for tup in itertools.product(self.alpha, repeat=n):
+                yield "".join(tup)
+
+    def run(self, first):
+        viol = []
+        try:
+            r0 = str(tokenize_html(first))
+        except Exception as exc:  # totality is the soup systems' clause
+            r0 = f"EXC {type(exc).__name__}"
+        n = 0
+        for probe in PROBES:
+            n += 1
+            got = str(tokenize_html(probe))
+            if got != probe and not viol:
+                viol.append(violation("history", {"clause": "history-roundtrip"},
+                                      f"after parsing {first!r}, render(parse({probe!r})) = {got!r}", first=first, text=probe, observed=got))
+        again = str(tokenize_html(first)) if not r0.startswith("EXC") else r0
+        if again != r0:
+            viol.append(violation("history", {"clause": "history-repeat"},
+                                  f"parsing {first!r} twice gives {r0!r} then {again!r}", first=first))
+        return Obs(digest=(first, r0), nontrivial=r0 != first, violations=viol, transitions=n + 2, validated=n + 1)
+
+
 def systems(tier):
     out = [SoupSystem(tier, nm, a, nq if tier == "quick" else nt) for nm, (a, nq, nt) in SOUP.items()]
     out.append(ForestSystem(tier))
     out.append(FindSystem(tier))
+    out.append(HistorySystem(tier))
     return out
 
 
